@@ -445,6 +445,8 @@ def parse_id(input_id: int) -> str:
 
     id_zzzaaa = int(input_id / 10000)
     state_digits = input_id - (id_zzzaaa * 10000)
+    if state_digits > len(get_metastable_chars()):
+        raise ValueError(f"{input_id} is not a valid canonical nuclide id.")
     state = get_metastable_chars()[state_digits - 1] if state_digits > 0 else ""
     Z = int(id_zzzaaa / 1000)
     A = id_zzzaaa - (Z * 1000)
